@@ -51,6 +51,10 @@ Scenario(s) ==
                  w1 |-> << [op |-> "read", c |-> 1], [op |-> "printreg"], [op |-> "read", c |-> 1], [op |-> "printreg"],
                            [op |-> "write", c |-> 2, v |-> 0], Ins("stop") >>,
                  w2 |-> << Ins("stop") >>]
+    [] s = 7 -> \* the main program fails while a task has host calls pending: the error must still be reported
+                [main |-> << [op |-> "chan", c |-> 1], [op |-> "spawn", p |-> "w1"], Ins("nop"), Ins("nop"), Ins("nop"), Ins("fail"), Ins("stop") >>,
+                 w1 |-> << [op |-> "print", v |-> 1], [op |-> "print", v |-> 2], [op |-> "print", v |-> 3], [op |-> "print", v |-> 4], Ins("stop") >>,
+                 w2 |-> << Ins("stop") >>]
 
 
 VARIABLES scn,        \* the scenario of this behaviour (chosen initially, then constant)
@@ -156,13 +160,15 @@ Spec == Init /\ [][Next]_vars
 StepAccounting == consumed <= k /\ lastRet.consumed <= lastRet.k
 DoneTruthful == (~inCall /\ lastRet.kind = "Done") <=> (~inCall /\ mainDone)
 ErrorTruthful == (~inCall /\ lastRet.kind = "MainThreadError") => th[Main].st = "err" /\ ~mainDone
-ErrorReported == (~inCall /\ th[Main].st = "err" /\ lastRet.kind # "none") => lastRet.kind \in {"MainThreadError"}
+\* a call that returns while the main program is in the error state reports exactly that (never a pending host call of
+\* another task, never OutOfSteps); "none" = no call has returned yet
+ErrorReported == (~inCall /\ th[Main].st = "err" /\ lastRet.kind # "none") => lastRet.kind = "MainThreadError"
 \* C09
 NoUseAfterFree == ~bad
 Fifo == \A c \in DOMAIN chan : \A i, j \in DOMAIN chan[c] : i < j => chan[c][i].id < chan[c][j].id
 \* C10: what has been printed when the main program is done does not depend on budgets / servicing
 ExpectedOf(s) == CASE s = 1 -> <<0, 10>> [] s = 2 -> <<101, 102>> [] s = 3 -> <<10, 20>> [] s = 4 -> <<7>>
-                   [] s = 5 -> <<1>> [] s = 6 -> <<5, 6>>
+                   [] s = 5 -> <<1>> [] s = 6 -> <<5, 6>> [] s = 7 -> <<1, 2, 3, 4>>
 Expected == ExpectedOf(scn)
 IsPrefix(s, t) == Len(s) <= Len(t) /\ \A i \in 1..Len(s) : s[i] = t[i]
 Confluence == IsPrefix(out, Expected) /\ (mainDone => out = Expected)
